@@ -179,7 +179,10 @@ class Pipeline:
                 f, mapspec = f  # noqa: PLW2901
             else:
                 mapspec = None
-            self.add(f, mapspec=mapspec)
+            self._add(f, mapspec=mapspec)
+        # Validate when all functions are known, such that the outcome does
+        # not depend on the order in which the functions are listed.
+        self._validate()
         self._cache_type = cache_type
         self._cache_kwargs = cache_kwargs
         if cache_type is None and any(f.cache for f in self.functions):
@@ -231,6 +234,12 @@ class Pipeline:
             maps to the output.
 
         """
+        f = self._add(f, mapspec)
+        self._validate()
+        return f
+
+    def _add(self, f: PipeFunc | Callable, mapspec: str | MapSpec | None = None) -> PipeFunc:
+        """Add a function to the pipeline without validating the pipeline."""
         if isinstance(f, PipeFunc):
             resources = Resources.maybe_with_defaults(f.resources, self._default_resources)
             f: PipeFunc = f.copy(  # type: ignore[no-redef]
@@ -259,7 +268,6 @@ class Pipeline:
             f.debug = self.debug
 
         self._clear_internal_cache()  # reset cache
-        self._validate()
         return f
 
     def drop(self, *, f: PipeFunc | None = None, output_name: OUTPUT_TYPE | None = None) -> None:
